@@ -49,7 +49,7 @@ def mirror_cases(draw):
     pair = draw(gen.image_pair(min_rows=7, max_rows=16, min_cols=8, max_cols=20, max_val=20, masks=True))
     pipe = draw(gen.legal_pipeline(validation=True, repeat_validation=True))
     a = draw(st.integers(-4, 2))
-    return {"pair": pair, "pipeline": pipe, "disp": [a, a + draw(st.integers(0, 5))]}
+    return {"pair": pair, "pipeline": pipe, "disp": gen.clamp_interval([a, a + draw(st.integers(0, 5))], pair["W"], pipe)}
 
 
 def mirror_body(ctx: Ctx, p: dict) -> None:
@@ -93,7 +93,7 @@ def noval_cases(draw):
     pair = draw(gen.image_pair(min_rows=7, max_rows=14, min_cols=8, max_cols=18, max_val=20, masks=True))
     pipe = draw(gen.legal_pipeline(validation=False))
     a = draw(st.integers(-4, 2))
-    return {"pair": pair, "pipeline": pipe, "disp": [a, a + draw(st.integers(0, 5))]}
+    return {"pair": pair, "pipeline": pipe, "disp": gen.clamp_interval([a, a + draw(st.integers(0, 5))], pair["W"], pipe)}
 
 
 def noval_body(ctx: Ctx, p: dict) -> None:
